@@ -24,7 +24,7 @@ Definition undash (k : str) : str := replace_char ch_dash ch_us k.
    key with '-' replaced by '_' as a plain name; the other five bind the key itself *)
 Definition fits (l : lang) (k : str) (m : member) : Prop :=
   mb_key m = match l with Scala => undash k | _ => k end /\
-  binding_ok m = true.
+  binding_ok l m = true.
 Definition group_fits (l : lang) (keys : list str) (ms : list member) : Prop := Forall2 (fits l) keys ms.
 Definition groups_fit (l : lang) (expected : list (list str)) (gs : list (list member)) : Prop :=
   Forall2 (group_fits l) expected gs.
@@ -39,6 +39,12 @@ Proof.
   rewrite N.eqb_sym in Hc. now rewrite Hc.
 Qed.
 
+Lemma undash_no_dash k : c01_has_dash (undash k) = false.
+Proof.
+  unfold c01_has_dash, contains_char, undash, replace_char. induction k as [|c r IH]; cbn [existsb map]; [reflexivity|].
+  rewrite IH, orb_false_r. destruct (c =? ch_dash) eqn:E; [reflexivity|]. now rewrite N.eqb_sym.
+Qed.
+
 Lemma map_undash_id keys : forallb (fun k => negb (c01_has_dash k)) keys = true -> map undash keys = keys.
 Proof.
   induction keys as [|k r IH]; cbn [forallb map]; [reflexivity|]. intros H.
@@ -51,13 +57,13 @@ Proof.
   induction 1 as [|k m keys ms (Hk & _) _ IH]; [destruct l; reflexivity|].
   cbn [map]. rewrite Hk, IH. destruct l; reflexivity.
 Qed.
-Lemma group_fits_binding l keys ms : group_fits l keys ms -> binding_group ms = true.
+Lemma group_fits_binding l keys ms : group_fits l keys ms -> binding_group l ms = true.
 Proof.
   induction 1 as [|k m keys ms (_ & Hb) _ IH]; [reflexivity|]. unfold binding_group in *. cbn [forallb]. now rewrite Hb, IH.
 Qed.
 
 Lemma group_good l keys ms : group_fits l keys ms -> dom_group l keys = true ->
-  keys_group keys ms = true /\ binding_group ms = true.
+  keys_group keys ms = true /\ binding_group l ms = true.
 Proof.
   intros H Hd. unfold dom_group in Hd. apply andb_true_iff in Hd as [_ Hsc].
   split.
@@ -68,7 +74,7 @@ Qed.
 
 (* the step from the per-member characterisation to the verdict the check evaluates *)
 Theorem groups_good l expected gs : groups_fit l expected gs ->
-  dom_C01 l expected = true -> good_groups_C01 expected gs = true.
+  dom_C01 l expected = true -> good_groups_C01 l expected gs = true.
 Proof.
   unfold good_groups_C01, good_keys_C01, good_binding_C01.
   induction 1 as [|keys ms expected gs Hg _ IH]; [reflexivity|].
@@ -160,7 +166,8 @@ Lemma ts_member_fits generics f st m st' : ts_member_of cfg generics f st = Ok (
 Proof.
   intros H. apply ts_member_key in H. unfold fits. cbn [ts_obs_member mb_key mb_name mb_binding].
   split; auto. unfold binding_ok. cbn [ts_obs_member mb_binding mb_name mb_key].
-  destruct (contains_char ch_dash (tm_key m)); [reflexivity|apply str_eqb_refl].
+  destruct (contains_char ch_dash (tm_key m)) eqn:E; [reflexivity|].
+  rewrite str_eqb_refl. unfold c01_has_dash. now rewrite E.
 Qed.
 
 Lemma ts_members_fit generics fs st ms st' : mmapM (ts_member_of cfg generics) fs st = Ok (ms, st') ->
@@ -223,7 +230,7 @@ Proof.
   unfold kt_remove_dash_from_identifier. fold (undash (renamed (fid f))).
   destruct req; cbn.
   - repeat split; auto.
-  - rewrite (undash_id _ (Hreq eq_refl)). repeat split; auto. apply str_eqb_refl.
+  - rewrite (undash_id _ (Hreq eq_refl)). repeat split; auto. now rewrite str_eqb_refl, (Hreq eq_refl).
 Qed.
 
 Lemma kt_struct_fits rs d : kt_struct_decl cfg rs = Ok d ->
@@ -291,7 +298,7 @@ Lemma sc_member_fits gens f m : sc_member_of cfg gens f = Ok m -> fits Scala (re
 Proof.
   unfold sc_member_of. destruct (match type_override f Scala with Some o => _ | None => _ end) as [ty| |]; cbn [bind]; try discriminate.
   intros [= <-]. unfold fits, binding_ok. cbn [sc_obs_member scm_name mb_key mb_binding mb_name].
-  fold (undash (renamed (fid f))). repeat split; auto. apply str_eqb_refl.
+  fold (undash (renamed (fid f))). repeat split; auto. now rewrite str_eqb_refl, undash_no_dash.
 Qed.
 
 Lemma sc_class_fits rs d : sc_class_of cfg rs = Ok d ->
@@ -343,7 +350,7 @@ Proof.
   unfold sw_remove_dash_from_identifier. fold (undash (renamed (fid f))). fold (c01_has_dash (renamed (fid f))).
   destruct (c01_has_dash (renamed (fid f))) eqn:Hd; cbn.
   - split; reflexivity.
-  - rewrite (undash_id _ Hd). split; [reflexivity|apply str_eqb_refl].
+  - rewrite (undash_id _ Hd). split; [reflexivity|now rewrite str_eqb_refl, Hd].
 Qed.
 
 Lemma sw_combine_fits (fs : list rfield) : forall (rest : list (texp * texp)), length rest = length fs ->
@@ -484,7 +491,7 @@ Proof.
   apply mbind_ok in H as (ann & s3 & _ & H). unfold ret in H. injection H as <- _.
   unfold fits, binding_ok. cbn [py_obs_member pym_alias pym_name mb_key mb_binding mb_name].
   destruct (str_eqb (py_property_aware_rename uc (original (fid f))) (renamed (fid f))) eqn:E; cbn [negb].
-  - apply str_eqb_eq in E. rewrite E. split; [reflexivity|apply str_eqb_refl].
+  - apply str_eqb_eq in E. rewrite E. split; [reflexivity|now rewrite str_eqb_refl].
   - split; reflexivity.
 Qed.
 
